@@ -9,6 +9,7 @@ import (
 	"runtime/debug"
 	"strings"
 	"sync"
+	"sync/atomic"
 	"time"
 
 	"github.com/scrapli/scrapligo/driver/generic"
@@ -72,7 +73,17 @@ func parallel(n int, f func(i int)) {
 		go func() {
 			defer wg.Done()
 			for i := range ch {
-				f(i)
+				// a case that never finishes (a call into the library that never returns) is reported by
+				// the monitor of watchCase; the worker moves on
+				done := make(chan struct{})
+				go func(i int) {
+					defer close(done)
+					f(i)
+				}(i)
+				select {
+				case <-done:
+				case <-time.After(curCaseLimit() + 3*time.Second):
+				}
 			}
 		}()
 	}
@@ -118,8 +129,79 @@ func newNetworkSimple(tr *sim.Transport, delay time.Duration, extra ...util.Opti
 
 // recoverCase turns a panic that escapes into the caller's goroutine while a case runs into a
 // reported failure of that case (the property texts say "never panics"); the replay is the case.
+// caseLimit: how long one case may take before it is reported as hanging (the longest legitimate
+// cases — real ssh sessions, child processes with their own watchdogs — take a few tens of seconds)
+const caseLimit = 100 * time.Second
+
+var hangsReported atomic.Int64
+
+// once several cases have hung the defect is established: later cases get a short limit, so that a
+// run in which every case hangs still ends within the driver's time limit
+func curCaseLimit() time.Duration {
+	if hangsReported.Load() >= 8 {
+		return 20 * time.Second
+	}
+	return caseLimit
+}
+
+type inflightCase struct {
+	start    time.Time
+	replay   interface{}
+	reported bool
+}
+
+var (
+	inflightMu   sync.Mutex
+	inflight     = map[string]*inflightCase{}
+	inflightOnce sync.Once
+)
+
+// watchCase registers a running case and returns the function to defer: it reports a panic in the
+// caller's goroutine as a failing case (recoverCase) and unregisters the case.  A monitor reports
+// every case still running after caseLimit, with its replay.
+func watchCase(id string, replay interface{}) func() {
+	inflightOnce.Do(func() {
+		go func() {
+			for {
+				time.Sleep(500 * time.Millisecond)
+				inflightMu.Lock()
+				for cid, e := range inflight {
+					if !e.reported && time.Since(e.start) > curCaseLimit() {
+						e.reported = true
+						hangsReported.Add(1)
+						prop := cid
+						if i := strings.IndexByte(cid, '-'); i > 0 {
+							prop = cid[:i]
+						}
+						emit(&Case{ID: cid, Kind: "hang", Oracle: fmt.Sprintf("the case had not finished %v after it started: a call into the library never returned", time.Since(e.start).Round(time.Second)),
+							Sig: prop + ":case-hang", Replay: e.replay})
+					}
+				}
+				inflightMu.Unlock()
+			}
+		}()
+	})
+	inflightMu.Lock()
+	inflight[id] = &inflightCase{start: time.Now(), replay: replay}
+	inflightMu.Unlock()
+	return func() {
+		inflightMu.Lock()
+		delete(inflight, id)
+		inflightMu.Unlock()
+		if r := recover(); r != nil {
+			reportPanic(id, replay, r)
+		}
+	}
+}
+
 func recoverCase(id string, replay interface{}) {
 	if r := recover(); r != nil {
+		reportPanic(id, replay, r)
+	}
+}
+
+func reportPanic(id string, replay interface{}, r interface{}) {
+	{
 		prop := id
 		if i := strings.IndexByte(id, '-'); i > 0 {
 			prop = id[:i]
